@@ -1,5 +1,6 @@
 import ScVerif.Base.Line
 import ScVerif.C20.Vending
+import ScVerif.C20.Esc
 /-! Driver ops of the Vending model: `vend.conv`, `vend.seq`, `vend.opts`. -/
 namespace ScVerif.C20.Vending
 open ScVerif.Line
@@ -30,8 +31,8 @@ def showQty : Option Qty → String
   | none => "-"
   | some q => toString q.unit ++ ":" ++ showRat q.amount
 
-def decName (s : String) : String := if s = "~" then "" else s
-def encName (s : String) : String := if s = "" then "~" else s
+def decName (s : String) : String := if s = "~" then "" else unesc s
+def encName (s : String) : String := if s = "" then "~" else esc s
 
 /-- `name=used;remaining` -/
 def parseStock? (s : String) : Option (String × Stock) :=
@@ -77,11 +78,11 @@ def runSeq (inv : Inventory) (ops : List (String × Qty)) : String :=
   " ; ".intercalate outs.reverse
 
 def decList (s : String) : List String :=
-  if s = "-" || s = "" then [] else s.splitOn ","
+  if s = "-" || s = "" then [] else (s.splitOn ",").map unesc
 
 def encSorted (xs : List String) : String :=
   let sorted := xs.mergeSort (fun a b => decide (a ≤ b))
-  if sorted.isEmpty then "-" else ",".intercalate sorted
+  if sorted.isEmpty then "-" else ",".intercalate (sorted.map esc)
 
 def parseOpt? (s : String) : Option Opt :=
   match s.splitOn ":" with
